@@ -43,6 +43,11 @@ func (m *Machine) doCall(c *Config, call ssa.CallInstruction) (*Config, []*Confi
 		if !ok && strings.HasPrefix(name, "reflect.Type.") {
 			return m.pureExternal(c, call, name, append([]Value{recv}, args...))
 		}
+		if !ok && strings.HasSuffix(name, ".HessianCodecName") {
+			// user-supplied naming method: a function of its receiver (A-DYN)
+			c.st.trust("A-DYN: HessianCodecName is a pure function of its receiver")
+			return m.pureExternal(c, call, name, append([]Value{recv}, args...))
+		}
 		if !ok {
 			return m.havocCall(c, call, "invoke "+name)
 		}
@@ -203,6 +208,9 @@ func (m *Machine) contractCall(c *Config, call ssa.CallInstruction, callee *ssa.
 		m.emit(c, "pre", lbl, r.Props, g, m.site(call), r.Src)
 		st.assume(g)
 	}
+	if fc.Measure != nil && m.cur != nil && callee == m.cur.fn {
+		m.measureObligation(c, call, fc, env)
+	}
 	old := st.clone()
 	// havoc the frame
 	for _, a := range fc.Assigns {
@@ -339,7 +347,7 @@ func (m *Machine) havocLoc(c *Config, env *Env, loc string) {
 		if mc, ok := st.ghost["@map:"+ref.S].(*mapContent); ok {
 			n := &mapContent{ksort: mc.ksort, vsort: mc.vsort,
 				has: m.syms.fresh("map.has", mc.has.Sort), get: m.syms.fresh("map.get", mc.get.Sort), size: m.syms.fresh("map.size", SBV64)}
-			st.assume(BVSge(n.size, BVLitI(0, 64)))
+			st.assume(And(BVSge(n.size, BVLitI(0, 64)), BVSle(n.size, BVLitI(1<<40, 64))))
 			st.ghost["@map:"+ref.S] = n
 		} else {
 			// not yet materialised: mark so that a later materialisation is fresh, not the initial contents
@@ -545,6 +553,10 @@ func (m *Machine) dynCall(c *Config, call ssa.CallInstruction) (*Config, []*Conf
 	st.ghost["@dyncalls"] = BVAdd(m.ghostOr(st, "@dyncalls", BVLitI(0, 64)), BVLitI(1, 64))
 	if len(res) > 0 {
 		st.ghost["@lastdyn"] = res[0]
+		if b, ok := res[0].(Term); ok && b.Sort == SBool {
+			// number of dynamic calls that answered true (termination measure of ExtractValue)
+			st.ghost["@dyntrue"] = BVAdd(m.ghost(st, "@dyntrue").(Term), Ite(b, BVLitI(1, 64), BVLitI(0, 64)))
+		}
 	}
 	m.bindCallResult(c, call, res)
 	return c, nil
@@ -702,4 +714,40 @@ func (m *Machine) ghostInvariant(st *State, name string) {
 		in := m.ghost(st, "@in").(Term)
 		st.assume(BVUle(st.ghost["@pos"].(Term), app(SBV64, "blen", in)))
 	}
+}
+
+// measureObligation: termination of recursion (C04, C16).  "measure grows G then shrinks S":
+// at every recursive call G (evaluated in the current state) has grown since entry, or is
+// unchanged and S of the call's arguments is smaller than S of this activation's arguments.
+// Well-foundedness (G is bounded above, S is bounded below) is a stated assumption.
+func (m *Machine) measureObligation(c *Config, call ssa.CallInstruction, fc *FuncContract, calleeEnv *Env) {
+	me := fc.Measure
+	entryEnv := m.baseEnv(c)
+	entryEnv.cur = m.cur.old
+	evalT := func(env *Env, x *Expr) (Term, bool) {
+		if x == nil {
+			return Term{}, false
+		}
+		cv, err := m.eval(env, x)
+		if err != nil {
+			m.errs = append(m.errs, "measure: "+err.Error())
+			return Term{}, false
+		}
+		t, ok := cv.V.(Term)
+		return t, ok && t.Sort.IsBV()
+	}
+	var goal Term = TFalse
+	g0, okg0 := evalT(entryEnv, me.Grows)
+	g1, okg1 := evalT(calleeEnv, me.Grows)
+	s0, oks0 := evalT(entryEnv, me.Shrinks)
+	s1, oks1 := evalT(calleeEnv, me.Shrinks)
+	switch {
+	case okg0 && okg1 && oks0 && oks1:
+		goal = Or(BVSgt(g1, g0), And(Eq(g1, g0), BVSlt(s1, s0), BVSge(s1, BVLitI(0, s1.Sort.Width()))))
+	case okg0 && okg1:
+		goal = BVSgt(g1, g0)
+	case oks0 && oks1:
+		goal = And(BVSlt(s1, s0), BVSge(s1, BVLitI(0, s1.Sort.Width())))
+	}
+	m.emit(c, "variant", "recursion:"+me.Label, me.Props, goal, m.site(call), me.Src)
 }
